@@ -201,6 +201,25 @@ def corruptions(g1):
         return f
     mut("parameter type duplicated identically", dup("ParameterTypeSet", 8))
     mut("parameter type duplicated with a change", dup("ParameterTypeSet", 8, lambda c: [e.attrs["attrib"].__setitem__("sizeInBits", "9") for e in all_elements(c) if "sizeInBits" in e.attrs["attrib"]]))
+
+    def dup_kind(suffix, rename_to_first=False):
+        """Duplicate the first parameter type whose tag ends with `suffix` (every reader class checks names: numeric, string,
+        enumerated, time types); with rename_to_first the copy takes the name of the first type of the set instead."""
+        def f(r):
+            s_ = find_all(r, "ParameterTypeSet")[0]
+            kids = [k for k in s_.attrs["__children__"] if is_elem(k)]
+            hit = [k for k in kids if k.attrs["tag"].endswith(suffix)]
+            if not hit:
+                return False
+            c = clone(hit[0])
+            if rename_to_first:
+                c.attrs["attrib"]["name"] = kids[0].attrs["attrib"]["name"]
+            append(s_, c)
+        return f
+    for suffix in ("AbsoluteTimeParameterType", "RelativeTimeParameterType", "EnumeratedParameterType", "StringParameterType", "BinaryParameterType",
+                   "FloatParameterType", "BooleanParameterType"):
+        mut(f"{suffix} duplicated identically", dup_kind(suffix))
+        mut(f"{suffix} added under the name of another type", dup_kind(suffix, True))
     mut("parameter duplicated identically", dup("ParameterSet", 9))
     mut("parameter duplicated with a different type", dup("ParameterSet", 9, lambda c: c.attrs["attrib"].__setitem__("parameterTypeRef", "MODE_T")))
     mut("container duplicated with a change", dup("ContainerSet", 2, lambda c: c.attrs["attrib"].__setitem__("abstract", "true")))
